@@ -747,3 +747,18 @@ func sortedCtorIDs() []uint32 {
 	sort.Slice(ids, func(i, j int) bool { return ids[i] < ids[j] })
 	return ids
 }
+
+// tlOutcome runs a codec call under recover and maps the result to value / err / panic.
+func tlOutcome(f func() (string, error)) (out string) {
+	defer func() {
+		if r := recover(); r != nil {
+			out = "panic"
+		}
+	}()
+	s, err := f()
+	if err != nil {
+		return "err"
+	}
+	return s
+}
+
